@@ -102,6 +102,9 @@ def borrowingSub (w : Nat) (a b : List Nat) (borrow : Bool) : List Nat × Bool :
 end UI
 
 namespace II
+/-- `BInt::NEG_ONE` (shared constant; do not redefine in other modules) -/
+def negOne (w n : Nat) : List Nat := allOnes w n
+
 /-- `BInt::overflowing_add`: `N-1` unsigned digit steps then one signed step on the top digit -/
 def addLoop (w : Nat) : List Nat → List Nat → Bool → List Nat × Bool
   | [a], [b], c =>
